@@ -154,7 +154,7 @@ def _lambda_info(m):
             caps = astload.lambda_captures(lam)
         except astload.ExtractionError:
             caps = []
-        lams.append({'index': i, 'mangled': list(dict.fromkeys(own)),
+        lams.append({'index': i, 'line': lam.get('_line') or (lam.get('range', {}).get('begin', {}).get('line')), 'mangled': list(dict.fromkeys(own)),
                      'captures': [{'name': c['name'], 'byref': bool(c.get('byref')), 'this': bool(c['this']),
                                    'type': (c.get('var_type') or {}).get('qualType', '')} for c in caps]})
     return lams
@@ -565,7 +565,7 @@ class _LoopFn:
 # one representative per generator family in the quick tier (thorough: every (class, source location))
 QUICK = [r'^nano::elemwise_gradient_t$', r'^nano::elemwise_generator_t<nano::elemwise_gradient_t', r'^nano::pairwise_product_t$',
          r'^nano::pairwise_generator_t<nano::pairwise_product_t', r'^nano::generator_t$']
-QUICK_NAMES = {'process', 'select_struct', 'select_scalar', 'flatten', 'do_select', 'select', 'iterate', 'should_drop', 'shuffled'}
+QUICK_NAMES = {'process', 'select_struct', 'select_scalar', 'flatten', 'do_select', 'select', 'iterate', 'should_drop'}
 # enumerated functions that are deliberately NOT put under a frame target (with the reason: they go to not_decided)
 SKIP = {}
 
@@ -575,7 +575,7 @@ def targets(tier='quick'):
     types = class_types(en)
     out, skipped, nonconst = [], [], []
     seen_loc = {}
-    statics = set()
+    quick_names = set()
     for rec in en['functions']:
         if not rec['const']:
             nonconst.append(f'{rec["cls"]}::{rec["name"]}')
@@ -591,10 +591,21 @@ def targets(tier='quick'):
             # do_select: only the overload that is live for the family (has a lambda instantiation)
             if rec['name'] == 'do_select' and not any(l['mangled'] for l in rec['lambdas']):
                 continue
+        if tier != 'thorough' and rec['cls'] == ROOT:
+            if (rec['cls'], rec['name']) in quick_names:
+                continue        # quick tier: one overload / instantiation per name of the base class
+            quick_names.add((rec['cls'], rec['name']))
         out.append(make_target(en, rec, types))
+        lam_lines = set()
         for lam in rec['lambdas']:
-            if lam['mangled']:
-                out.append(make_target(en, rec, types, lam=lam, lam_mangled=lam['mangled'][0]))
+            if not lam['mangled']:
+                continue
+            # a lambda nested in a generic lambda exists once per instantiation of the outer one: one target per source line
+            # (thorough tier: every LambdaExpr node, first instantiation of its operator())
+            if tier != 'thorough' and lam.get('line') in lam_lines:
+                continue
+            lam_lines.add(lam.get('line'))
+            out.append(make_target(en, rec, types, lam=lam, lam_mangled=lam['mangled'][0]))
     info = {'classes': sorted(en['classes']), 'const_functions': len(seen_loc), 'instantiations': sum(seen_loc.values()),
             'non_const_members_outside_the_const_interface': sorted(set(nonconst))}
     return out, info
